@@ -1,9 +1,28 @@
 import UtilModel.Model.GoJson
+import UtilModel.Spec.SizeJson
 /-!
-# Lemmas about the streaming tokenizer model (`GoJson.tokenF`)
+# Lemmas about the streaming tokenizer model (`GoJson.tokenF`, `Dec.token`, `Dec.more`)
+
+State and stack facts about one call of `Token` (all for arbitrary input, malformed or not):
+
+* 1(a) `token_key` (`tokenF_objectStart'`, `tokenF_objectComma'`, `tokenF_objectKey'`): where a member key
+  is expected — state `objectStart`/`objectComma` with `More() = true`, or `objectKey` — the call fails or
+  returns a *string* and leaves `st = objectColon`, stack unchanged.
+* 1(b) `token_value` (`ValueStep`): from `objectColon` the call fails, or returns a scalar with
+  `st = objectComma` and the stack unchanged, or `[`/`{` with the member's frame `objectValue` pushed.
+* 1(c) `token_stackStep` (`StackStep`): an opening delimiter pushes exactly one frame, a closing one
+  pops exactly one and sets `st = valueEnd` of it, any other token leaves the stack alone; only the four
+  delimiters occur.
+* `token_top` (`TopStep`), `token_topValue_eof`: the first token of a document; at the top level `Token`
+  reports `io.EOF` exactly when only white space is left.
+* `token_shorter`: every token consumes input (`d'.rest` is a proper suffix of `d.rest`).
+
+1(d) (`skipLoop`/`decodeAndSkipNested` restore state and stack) is in `Lemmas/SizeObject.lean`.
+(Own namespace: `Lemmas/JsonScan.lean` of C04 has computation lemmas with similar names in `U.GoJson`.)
 -/
 namespace U.JsonTokens
 open U U.GoJson
+open U.Props.C12 (allSpace)
 
 theorem scanScalar_not_delim {s : Bytes} {tok : Tok} {r : Bytes}
     (h : scanScalar s = .ok (tok, r)) : ∀ c, tok ≠ .delim c := by
@@ -426,9 +445,6 @@ theorem tokenF_objectColon' {f : Nat} {rest : Bytes} {S : List TState} {tok : To
       all_goals try (simp_all [valueAllowed]; done)
       exact tokenF_objectValue' h
 
-
-/-- only JSON white space -/
-def allSpace (s : Bytes) : Bool := s.all isSpace
 
 theorem skipSpace_eq_nil {s : Bytes} : skipSpace s = [] ↔ allSpace s = true := by
   induction s with
